@@ -8,6 +8,7 @@ from ..vals import FuncCtx
 from ..engines import trace as TR
 from .. import inv
 from . import common, listrules
+from .c08 import stop_ordering
 
 PID = "C09"
 CLEANUP = ("cmi_process_cancel_awaiteds", "cmi_process_drop_resources", "wake_process_waiters")
@@ -257,6 +258,13 @@ def rules(rep, m):
         r5.fail()
     else:
         r5.ok()
+
+
+    # R-C09-6 ------------------------------------------------------------
+    r6 = rep.rule("R-C09-6", "what an ending process held is offered to the *other* waiters: a process that may itself be "
+                  "blocked (stop) is taken out of every waiting list before its holdings are dropped, otherwise the freed "
+                  "units are granted to the dying process and lost", floor=1)
+    stop_ordering(rep, r6, m)
 
 
 def run(tier="quick"):
